@@ -36,7 +36,7 @@ PROBES = ["model_error_missing", "model_error_ineligible", "model_error_glob", "
 
 DOC = b"# T\n"
 FILE_NAMES = ["a.md", "b.md", "c.md", "B.MD", "notes.txt", "x.markdown", "README", "a[1].md", "q?.md", "qa.md", "s*r.md", "star.md", ".hidden.md", "z.md.bak", "md"]
-DIR_NAMES = ["docs", "docs/sub", "docs/sub/deep", "x.md", "empty", ".hid", "other", "other/docs"]
+DIR_NAMES = ["docs", "docs/sub", "docs/sub/deep", "x.md", "empty", ".hid", "other", "other/docs", "docs2", "docs-old", "doc", "docs2/sub"]
 
 
 def gen_tree(rng):
